@@ -201,6 +201,27 @@ def shard(tier, seed, shard, nshards):
         for sp in (s1, s2):
             t = check_objects(st, "twin", sp, "plain")
             history.append((sp, "plain", t))
+    # a rank literally NAMED like a partition level of a spec compiled earlier in the process
+    # (a process-wide name->root cache would confuse them)
+    from ..gen import einsum as GE2, mapping as GM2
+    from ..spec import Acc as _Acc, Term as _Term, Einsum as _Einsum, Spec as _Spec
+    for k in range(3 if tier == "quick" else 20):
+        rnd2 = random.Random("%s-lvl-%d-%d-%d" % (ID, seed, shard, k))
+        r = rnd2.choice(["K", "M", "N"])
+        o = rnd2.choice([x for x in ["K", "M", "N"] if x != r])
+        lvl = r + rnd2.choice(["1", "0"])
+        s1 = _Spec({"A": [r, o], "Z": [o]},
+                   [_Einsum(_Acc("Z", [[(1, o.lower())]]),
+                            [_Term("times", [_Acc("A", [[(1, r.lower())], [(1, o.lower())]])])])],
+                   partitioning={"Z": {r: ["uniform_shape(%d)" % rnd2.randint(2, 4)]}},
+                   tags=["level-name-twin"])
+        s2 = _Spec({"A": [lvl, o], "Z": [o]},
+                   [_Einsum(_Acc("Z", [[(1, o.lower())]]),
+                            [_Term("times", [_Acc("A", [[(1, lvl.lower())], [(1, o.lower())]])])])],
+                   tags=["level-name-twin"])
+        for sp in ((s1, s2) if rnd2.random() < 0.5 else (s2, s1)):
+            t = check_objects(st, "twin", sp, "plain")
+            history.append((sp, "plain", t))
     # history independence: the same specs, first thing in a fresh interpreter
     rnd = random.Random("%s-hist-%d-%d" % (ID, seed, shard))
     sample = rnd.sample(history, min(len(history), 64 if tier == "quick" else 160))
